@@ -22,7 +22,9 @@ inductive Out (α : Type) where
 structure Kernels (α : Type) where
   /-- `std::lgamma` (RandomTools.h:472) -/
   lnGamma : α → α
-  /-- `incompleteGamma(x, alpha, ln_gamma_alpha)` after its argument checks (cpp:156-206) -/
+  /-- `incompleteGamma(x, alpha, ln_gamma_alpha)` after its argument checks and the `x == 0` test: everything
+  from the `isinf(x)` test (cpp:158) on — that test, `factor`, the far-tail guard, series and continued fraction.
+  (Transcribed in `DistKernels.lean`; here a parameter whose value is the implementation's own.) -/
   igCore : α → α → α → α
   /-- `qChisq(prob, v)` after its argument check (cpp:218-266); it calls `incompleteGamma`
   itself and returns -1 when that reports an error -/
